@@ -116,6 +116,11 @@ func Print(v reflect.Value) string {
 			return "()"
 		}
 		return "(" + printList(m.FieldByName("keys")) + "|" + printList(m.FieldByName("values")) + ")"
+	case "tlb.Hashmap":
+		if v.FieldByName("keys").Len() == 0 {
+			return "()"
+		}
+		return "(" + printList(v.FieldByName("keys")) + "|" + printList(v.FieldByName("values")) + ")"
 	}
 	switch t.Kind() {
 	case reflect.Uint8, reflect.Uint16, reflect.Uint32, reflect.Uint64, reflect.Uint:
@@ -390,6 +395,20 @@ func fill(e *sexp, v reflect.Value) error {
 			return err
 		}
 		return fill(e.list[1], m.FieldByName("values"))
+	case "tlb.Hashmap":
+		if !e.isLst {
+			return bad()
+		}
+		if len(e.list) == 0 {
+			return nil
+		}
+		if len(e.list) != 2 {
+			return bad()
+		}
+		if err := fill(e.list[0], v.FieldByName("keys")); err != nil {
+			return err
+		}
+		return fill(e.list[1], v.FieldByName("values"))
 	}
 	switch t.Kind() {
 	case reflect.Uint8, reflect.Uint16, reflect.Uint32, reflect.Uint64, reflect.Uint:
